@@ -26,6 +26,7 @@ import (
 	"fmt"
 	"io"
 	"log"
+	"math"
 	"strconv"
 	"strings"
 	"time"
@@ -75,7 +76,61 @@ func kvInt(ws []string, k string) (int64, bool) {
 	return n, err == nil
 }
 
-func tm(ns int64) time.Time { return time.Unix(0, ns) }
+// curRep selects how the clock value of the op being executed is represented
+// (`rep=<n>` on the op line).  The property and the model speak about
+// instants; the same instant handed over as a different time.Time value must
+// give the same verdict.
+var curRep int
+
+var zone0530 = time.FixedZone("+0530", 5*3600+1800)
+
+const nReps = 6
+
+// tm is the instant `ns` nanoseconds after the Unix epoch in the current representation.
+func tm(ns int64) time.Time { return tmRep(ns, curRep) }
+
+func tmRep(ns int64, rep int) time.Time {
+	t := time.Unix(0, ns)
+	switch rep {
+	case 1:
+		return t.UTC()
+	case 2:
+		return t.In(zone0530)
+	case 3:
+		return t.Local()
+	case 4:
+		// a wall-clock reading with its monotonic reading, shifted to the instant
+		n := time.Now()
+		if nowNs := n.UnixNano(); ns > math.MinInt64+nowNs {
+			if m := n.Add(time.Duration(ns - nowNs)); m.UnixNano() == ns {
+				return m
+			}
+		}
+		return t
+	case 5:
+		return time.Unix(ns/1e9-1, ns%1e9+1e9).In(time.FixedZone("", 0))
+	}
+	return t
+}
+
+func repOf(ws []string) int {
+	n, ok := kvInt(ws, "rep")
+	if !ok || n < 0 || n >= nReps {
+		return 0
+	}
+	return int(n)
+}
+
+func stripRep(line string) string {
+	ws := strings.Fields(line)
+	out := ws[:0:0]
+	for _, w := range ws {
+		if !strings.HasPrefix(w, "rep=") {
+			out = append(out, w)
+		}
+	}
+	return strings.Join(out, " ")
+}
 
 func hmacOf(k, d []byte) []byte {
 	m := hmac.New(sha256.New, k)
@@ -142,6 +197,7 @@ type ctx struct {
 	scheduled bool                  // the history in progress paused a call
 
 	noShrink bool
+	noShadow bool // this context is itself the representation-free replay
 	shrunk   map[string]bool
 }
 
@@ -191,16 +247,21 @@ func shrinkHist(hist []string, key string) []string {
 	return cur
 }
 
+var parsedKeys map[string]*rsaKey // read-only after the first newCtx
+
 func newCtx(rep *hx.Report, j *hx.Journal) *ctx {
-	c := &ctx{rep: rep, j: j, keys: map[string]*rsaKey{}}
-	for i, tk := range testKeys {
-		pri, err := rsautil.ParsePrivateKey([]byte(tk.Pri))
-		if err != nil {
-			panic(err)
+	if parsedKeys == nil {
+		parsedKeys = map[string]*rsaKey{}
+		for i, tk := range testKeys {
+			pri, err := rsautil.ParsePrivateKey([]byte(tk.Pri))
+			if err != nil {
+				panic(err)
+			}
+			label := fmt.Sprintf("k%d", i)
+			parsedKeys[label] = &rsaKey{label: label, pri: pri, pub: &pri.PublicKey, pubS: tk.Pub, priS: tk.Pri}
 		}
-		label := fmt.Sprintf("k%d", i)
-		c.keys[label] = &rsaKey{label: label, pri: pri, pub: &pri.PublicKey, pubS: tk.Pub, priS: tk.Pri}
 	}
+	c := &ctx{rep: rep, j: j, keys: parsedKeys}
 	c.resetRoles()
 	return c
 }
@@ -423,7 +484,8 @@ func (c *ctx) prepCall(ws []string) *pcCall {
 	}
 	switch ws[1] {
 	case "create":
-		return plain(func() error { return c.roles.New(roleName, tm(0)) })
+		t := tm(0)
+		return plain(func() error { return c.roles.New(roleName, t) })
 	case "remove":
 		return plain(func() error { return c.roles.Remove(roleName) })
 	case "disable":
@@ -438,10 +500,11 @@ func (c *ctx) prepCall(ws []string) *pcCall {
 		}
 		r := c.roles
 		var code string
+		at := tm(now)
 		return &pcCall{
 			run: func() error {
 				r.SetPassCodeExpiry(time.Duration(ex))
-				pc, e := r.NewPassCode(roleName, tm(now))
+				pc, e := r.NewPassCode(roleName, at)
 				if e == nil {
 					code = pc.Code
 				}
@@ -484,8 +547,9 @@ func (c *ctx) prepCall(ws []string) *pcCall {
 		}
 		r := c.roles
 		id := &identity.Identity{PublicKeys: []*identity.PublicKey{{ID: strconv.FormatInt(idn, 10)}}}
+		at := tm(now)
 		return &pcCall{
-			run: func() error { return r.SetupWithCode(roleName, id, claim, tm(now)) },
+			run: func() error { return r.SetupWithCode(roleName, id, claim, at) },
 			finish: func(err error, before *roles.VerifRoleState) {
 				switch {
 				case err == nil:
@@ -634,13 +698,48 @@ func (c *ctx) pcOp(ws []string, line string) string {
 func (c *ctx) runOp(line string) (out string) {
 	// a Go panic in the code under test is an observation, not the end of the run
 	defer func() {
+		curRep = 0
 		if r := recover(); r != nil {
 			w := strings.Fields(line + " x")[0]
 			c.rep.Fail("panic-"+w, fmt.Sprintf("the implementation panicked: %v", r), []string{line})
 			out = "panic"
 		}
 	}()
-	return c.runOp1(line)
+	ws := strings.Fields(line)
+	rep := repOf(ws)
+	curRep = rep
+	out = c.runOp1(line)
+	if rep == 0 || len(ws) == 0 || ws[0] == "conc" {
+		return out
+	}
+	// The verdict depends on the instant only: the same op with the clock value
+	// built by time.Unix must answer the same.
+	curRep = 0
+	if ws[0] == "pc" {
+		if c.noShadow {
+			return out
+		}
+		// stateful: replay the history so far, without representations, on a fresh record
+		sh := newCtx(hx.NewReport("C16", &hx.Flags{}), &hx.Journal{})
+		sh.noShrink, sh.noShadow = true, true
+		out0 := ""
+		for _, h := range c.hist {
+			out0 = sh.runOp(stripRep(h))
+		}
+		sh.drainParked()
+		if out0 != out {
+			c.failHist("verdict-depends-on-time-representation",
+				fmt.Sprintf("the last call answers %q with this representation of the instant and %q when every instant is given as time.Unix(0, ns)", out, out0),
+				append([]string{}, c.hist...))
+		}
+		return out
+	}
+	if out0 := c.runOp1(stripRep(line)); out0 != out {
+		c.rep.Fail("verdict-depends-on-time-representation",
+			fmt.Sprintf("%s answers %q when the clock value is representation %d of the instant and %q when it is time.Unix(0, ns)", ws[0], clip(out, 60), rep, clip(out0, 60)),
+			[]string{line})
+	}
+	return out
 }
 
 func (c *ctx) runOp1(line string) string {
@@ -1113,7 +1212,7 @@ func main() {
 	rep := hx.NewReport("C16", f)
 	rep.Rule = "op lines: issue/verify of signed blobs, hex blobs, sessions, gate tokens, time tokens, RSA time blocks, challenges, " +
 		"HS256/RS256/self JWTs with every single-bit mutation, every prefix and byte-class extensions of issued tokens, clocks at " +
-		"each boundary -2..+2 ns and +-1 s, claim templates over all field subsets, passcode histories up to 16 ops (one in three with a call paused at a store operation of a pausable KV and released later), " +
+		"each boundary -2..+2 ns and +-1 s (at -1/0/+1 ns also with the instant as .UTC(), .In(+05:30), .Local(), a monotonic time.Now()-derived value and a normalised time.Unix(sec, nsec) in a zero-offset zone), claim templates over all field subsets, passcode histories up to 16 ops (one in three with a call paused at a store operation of a pausable KV and released later), " +
 		"and `conc` lines: 4..16 goroutines verifying genuine tokens and forgeries on one shared Signer/Sessions/TimeSigner/Gate/HS256; " +
 		"distinct = distinct op line (a passcode op counts with its history prefix); non-trivial = every op except codec-only lines"
 	c := newCtx(rep, hx.NewJournal(f.Work))
